@@ -145,10 +145,11 @@ def load_known():
         return json.load(fh)
 
 
-def shard_env(extra=None):
+def shard_env(extra=None, seed=0):
     env = dict(os.environ)
     env['PYTHONPATH'] = os.pathsep.join([VERIF, REPO_SRC, DEPS])
-    env['PYTHONHASHSEED'] = '0'
+    # deterministic per VERIF_SEED, but not the same string-hash order for every seed (order-dependent defects are not masked)
+    env['PYTHONHASHSEED'] = str(int(seed) % 4000000000)
     env['PYTHONDONTWRITEBYTECODE'] = '1'
     env[GUARD] = '1'
     env.pop('TZ', None)
@@ -166,7 +167,7 @@ def _run_one(prop, ix, spec, outdir):
     t0 = time.time()
     try:
         proc = subprocess.run([PYTHON, '-B', '-X', 'faulthandler', '-m', 'vf.shard', prop, spec_path, out_path],
-                              env=shard_env(spec.get('env')), cwd=VERIF, timeout=timeout,
+                              env=shard_env(spec.get('env'), spec.get('seed', 0)), cwd=VERIF, timeout=timeout,
                               stdout=subprocess.PIPE, stderr=subprocess.PIPE, text=True, errors='replace')
     except subprocess.TimeoutExpired:
         return {'_status': 'timeout', '_wall': time.time() - t0, '_spec': spec}
@@ -267,3 +268,23 @@ def write_evidence(prop, tier, seed, level, m, meta, wall, nviol):
 
 def load_check(prop):
     return importlib.import_module(f'vf.checks.{prop.lower()}')
+
+
+def cold_reversed(kind, items, seed=0):
+    """Results of applying `kind` to items in a FRESH child process that sees them in reversed order (returned in the
+    original order), or None if the child failed (inconclusive, never a violation)."""
+    os.makedirs(SCRATCH, exist_ok=True)
+    path = os.path.join(SCRATCH, f'cold-{os.getpid()}-{kind}.json')
+    with open(path, 'w', encoding='utf-8') as fh:
+        json.dump(list(reversed(items)), fh)
+    try:
+        proc = subprocess.run([PYTHON, '-B', '-m', 'vf.coldrun', kind, path], env=shard_env(None, seed + 1), cwd=VERIF, timeout=900,
+                              stdout=subprocess.PIPE, stderr=subprocess.PIPE, text=True)
+        if proc.returncode != 0:
+            return None
+        return list(reversed(json.loads(proc.stdout)))
+    finally:
+        try:
+            os.unlink(path)
+        except OSError:
+            pass
